@@ -164,7 +164,7 @@ class Source:
         item = None
         for si, seg in enumerate(segs):
             want = norm(seg)
-            hits = [it for it in cands if it.header == want or (it.kind in ("macro_rules", "macro_call") and want == norm("macro " + it.name))]
+            hits = [it for it in cands if it.header == want or (it.kind == "macro_rules" and want == norm("macro " + it.name))]
             if not hits:
                 raise AnchorLost(f"lost anchor: item `{path}` (segment `{seg}`) not found in {self.path}")
             if len(hits) > 1:
